@@ -64,6 +64,7 @@ Definition result_state (r : response) : Z :=
 
 Record body_oracle := mkBody {
   b_read   : option err;   (* what io.ReadAll(resp.Body) returns *)
+  b_tf     : option err;   (* what the client's responseBodyTransformer returns on the bytes read (None: none installed / ok) *)
   b_um_res : option err;   (* what the unmarshal function returns on the body for Request.Result *)
   b_um_req : option err;   (* ... for Request.Error *)
   b_um_com : option err    (* ... for a new value of the client's common error type *)
@@ -77,8 +78,12 @@ Definition to_bytes (b : body_oracle) (r : response) : response * option err :=
     if r_cached r then (r, None)
     else if negb (r_present r) then (r, None)
     else match b_read b with
-         | Some e => (set_cached true (set_err (Some e) r), Some e)
-         | None => (set_cached true r, None)
+         | Some e => (set_cached true (set_err (Some e) r), Some e)   (* r.body = what was read so far (non-nil) *)
+         | None =>
+           match b_tf b with
+           | Some e => (set_err (Some e) r, Some e)                   (* r.body = nil, the transformer's result *)
+           | None => (set_cached true r, None)
+           end
          end
   end.
 
@@ -169,7 +174,8 @@ Record config := mkCfg {
   c_autoread : bool;             (* !client.disableAutoReadResponse && !r.isSaveResponse && !r.disableAutoReadResponse *)
   c_onerror  : bool;             (* client.onError != nil *)
   c_retry    : option (Z * bool);(* retryOption: MaxRetries, "custom RetryConditions present" *)
-  c_reqerr   : option err        (* Request.error collected by the setters *)
+  c_reqerr   : option err;       (* Request.error collected by the setters *)
+  c_unreplayable : bool          (* Request.unReplayableBody != nil (SetBody(io.Reader)) *)
 }.
 
 Record attempt := mkAttempt {
@@ -191,7 +197,7 @@ Inductive flavour := Fixed | Pinned.
 (* resp.Response = answer; auto-read (shared by roundTrip and the digest re-send) *)
 Definition receive (t : tout) (r : response) : response * option err * body_oracle :=
   match t with
-  | TFail e => (set_http false 0 None r, Some e, mkBody None None None None)
+  | TFail e => (set_http false 0 None r, Some e, mkBody None None None None None)
   | TResp s chk b =>
     let r1 := set_http true s chk r in
     (r1, None, b)
@@ -427,11 +433,23 @@ Inductive outcome :=
 | Panicked (e : err) (logs : list (list event)) (hooks : nat)      (* Must-style: panic(err) *)
 | OutOfFuel.
 
+Definition e_unreplayable : err := -8.   (* errRetryableWithUnReplayableBody *)
+
+(* r.retryOption != nil && r.retryOption.MaxRetries != 0 && r.unReplayableBody != nil *)
+Definition retryable_unreplayable (cfg : config) : bool :=
+  match c_retry cfg with
+  | Some (mx, _) => negb (mx =? 0) && c_unreplayable cfg
+  | None => false
+  end.
+
 (* Request.Do *)
 Definition do_call (fl : flavour) (cfg : config) (attempts : list attempt) : do_result :=
   match c_reqerr cfg with
   | Some e => DoRet (Some (set_err (Some e) fresh_resp)) None []      (* newErrorResponse(r.error) *)
-  | None => do_loop fl cfg attempts 0 None
+  | None =>
+    if retryable_unreplayable cfg
+    then DoRet (Some (set_err (Some e_unreplayable) fresh_resp)) None []   (* newErrorResponse(errRetryableWithUnReplayableBody) *)
+    else do_loop fl cfg attempts 0 None
   end.
 
 Definition resp_err (ro : option response) : option err :=
